@@ -57,7 +57,7 @@ func runC13(opt *Options) int {
 	convs = append(convs, layerb.FamilySibling(false)...)
 	convs = append(convs, layerb.FamilySignature(false)...)
 	for i, c := range layerb.FamilyShape(false, opt.Seed) {
-		if i%4 == 0 || strings.Contains(c.ID, "shape/rec_") {
+		if i%4 == 0 || strings.Contains(c.ID, "shape/rec_") || strings.Contains(c.ID, "shape/generic_tree") {
 			convs = append(convs, c)
 		}
 	}
